@@ -317,7 +317,7 @@ func (c *Checker) childTimeout() time.Duration {
 	if c.Tier == "thorough" {
 		return 240 * time.Second
 	}
-	return 75 * time.Second
+	return 150 * time.Second
 }
 
 // raceThroughLegacyControl: one of the two racing accesses was made on behalf of a legacy JIT control.
